@@ -50,6 +50,10 @@ IndexOf(s, c) == IF \E i \in 1..Len(s) : s[i] = c THEN CHOOSE i \in 1..Len(s) : 
 IsDecimal(s) == s # <<>> /\ \A i \in 1..Len(s) : s[i] \in 48..57
 RECURSIVE DecVal(_)
 DecVal(s) == IF s = <<>> THEN 0 ELSE DecVal(SubSeq(s, 1, Len(s) - 1)) * 10 + (s[Len(s)] - 48)
+\* a field number with more than 8 significant digits exceeds any argument count (and TLC's integers)
+RECURSIVE StripZeros(_)
+StripZeros(s) == IF Len(s) > 1 /\ s[1] = 48 THEN StripZeros(Tail(s)) ELSE s
+HugeDec(s) == Len(StripZeros(s)) > 8
 KwIdx(kw, name) == IF \E i \in 1..Len(kw) : kw[i][1] = name THEN CHOOSE i \in 1..Len(kw) : kw[i][1] = name ELSE 0
 
 (***************************************************************************)
@@ -83,7 +87,7 @@ FormatFrom(f, args, kw, next, mode, acc) ==
                   ELSE IF name = <<>> THEN
                        (IF mode = 2 \/ next > Len(args) THEN FFail ELSE go(args[next], next + 1, 1))
                   ELSE IF IsDecimal(name) THEN
-                       (IF mode = 1 \/ DecVal(name) + 1 > Len(args) THEN FFail ELSE go(args[DecVal(name) + 1], next, 2))
+                       (IF mode = 1 \/ HugeDec(name) \/ DecVal(name) + 1 > Len(args) THEN FFail ELSE go(args[DecVal(name) + 1], next, 2))
                   ELSE (IF KwIdx(kw, name) = 0 THEN FFail ELSE go(kw[KwIdx(kw, name)][2], next, mode))
 Format(f, args, kw) == FormatFrom(f, args, kw, 1, 0, <<>>)
 
